@@ -133,7 +133,7 @@ theorem C13_pom_identity (pom : Pom) : write pom [] = pom := by
 Full-strength statement for the pom.xml writer at requirement level:
     requirements (write pom us) = substitute (requirements pom) us
 for every pom and every set of updates addressed to requirements present in it.  It is FALSE for the
-unchanged code in the two situations of `C13_pom_class_witnesses` (known findings C13/pom-…); the
+unchanged code in the situations of `C13_pom_class_witnesses` and `C13_pom_other_profile_witness` (known findings C13/pom-…); the
 general theorem in force is `C13_pom_literal_roundtrip`, the remaining cases (property-based versions,
 several updates) are covered by the correspondence stream with this very statement as its oracle.
 -/
@@ -156,6 +156,17 @@ theorem C13_pom_class_witnesses :
     (let pom : Pom := ⟨[⟨[], ['x'], ['y'], [], [], "${v}".toList, false⟩, ⟨[], ['x'], ['z'], [], [], "${v}".toList, false⟩], [⟨[], ['v'], "1.0".toList⟩], "1.0".toList⟩
      let us : List Upd := [⟨['x'], ['y'], [], [], [], "1.0".toList, "1.5".toList⟩]
      requirements (write pom us) ≠ substitute (requirements pom) us ∧ feature pom us = some "C13/pom-shared-property") := by
+  decide
+
+/-- known finding C13/pom-property-other-profile, on the model: a dependency in profile p1 with version
+`${w}`, `w` defined only in profile p2.  The by-name test of fix f5d17448 passes, the patch is recorded
+under property origin "" where nothing holds `w`, and the written pom reads back unchanged. -/
+theorem C13_pom_other_profile_witness :
+    let pom : Pom := ⟨[⟨[], ['x'], ['m'], [], [], "1.0".toList, false⟩, ⟨"profile@p1".toList, ['x'], ['q'], [], [], "${w}".toList, false⟩],
+                      [⟨"profile@p2".toList, ['w'], "1.0".toList⟩], "1.0".toList⟩
+    let us : List Upd := [⟨['x'], ['q'], [], [], [], "${w}".toList, "2.0".toList⟩]
+    write pom us = pom ∧ requirements (write pom us) ≠ substitute (requirements pom) us ∧
+    feature pom us = some "C13/pom-property-other-profile" := by
   decide
 
 /-- the three repaired classes, on the model: white space in a key element (5743d35a), `${project.version}`
